@@ -79,6 +79,9 @@ pub struct Session {
     /// flush requests completed by the store's workers
     pub worker_done: AtomicU64,
     pub sched: Mutex<Option<Arc<dyn SchedHooks>>>,
+    /// Environment action run when the store reaches a named point (sequential engines).
+    pub point_cb: Mutex<Option<Box<dyn Fn(&'static str) + Send + Sync>>>,
+    pub points_seen: Mutex<Vec<&'static str>>,
     sched_on: AtomicBool,
     fsync_open: AtomicBool,
 }
@@ -101,6 +104,8 @@ impl Session {
             fsyncs: AtomicU64::new(0),
             worker_done: AtomicU64::new(0),
             sched: Mutex::new(None),
+            point_cb: Mutex::new(None),
+            points_seen: Mutex::new(Vec::new()),
             sched_on: AtomicBool::new(false),
             fsync_open: AtomicBool::new(false),
         })
@@ -239,6 +244,12 @@ impl Handler for Session {
     }
 
     fn point(&self, name: &'static str, a: u64, b: u64) {
+        if name.starts_with("mig_") {
+            self.points_seen.lock().push(name);
+            if let Some(cb) = self.point_cb.lock().as_ref() {
+                cb(name);
+            }
+        }
         if let Some(s) = self.sched() {
             s.point(name, a, b);
         }
